@@ -185,7 +185,8 @@ impl RawConn {
             if start.elapsed() > limit {
                 return false;
             }
-            match self.read_some(Duration::from_millis(100)).await {
+            let left = limit.saturating_sub(start.elapsed()).min(Duration::from_millis(100)).max(Duration::from_millis(1));
+            match self.read_some(left).await {
                 Some(Ok(0)) | Some(Err(_)) => return self.messages().len() >= n,
                 _ => {}
             }
@@ -353,7 +354,9 @@ pub async fn exchange(s: &mut AnySocket, kind: Kind, c: &mut RawConn, tag: &str)
             // round robin: keep sending until this client got one
             let n = c.messages().len();
             for _ in 0..64 {
-                s.send(crate::sim::to_msg(&[t.clone()])).await.map_err(|e| format!("send: {:?}", e))?;
+                // a send that fails because the rotation reached a connection that has gone is
+                // how these sockets notice the departure: not an error of this exchange
+                let _ = s.send(crate::sim::to_msg(&[t.clone()])).await;
                 if c.await_messages(n + 1, Duration::from_millis(5)).await {
                     return Ok(());
                 }
